@@ -613,3 +613,51 @@ def run(ctx):  # noqa: F811
     _run_core(ctx)
     if not os.environ.get("VERIF_REPLAY"):
         csv_member_isolation(ctx)
+
+
+# ---- delayed feedback with member-dependent delays (cases and model shared with C16) -----------------------
+def delay_member_rows(ctx):
+    """ensembles whose delay duration is a parameter that differs between the members: every member's delay rows
+    are those of the Gallina model evaluated with that member's own parameter"""
+    import random
+    from . import c16
+    r2 = random.Random(716)
+    specs = []
+    while len(specs) < ctx.n(6, 80):
+        s = c16.gen_case(r2)
+        if s["ensemble_size"] < 2 or not s["parameters"]:
+            continue
+        p0 = s["parameters"][0]
+        step = Fraction(s["times"][1]) - Fraction(s["times"][0])
+        s["delayed_feedback"][0][2] = ["v", p0]
+        for m in range(s["ensemble_size"]):
+            s["param_values"][m][p0] = str(step * Fraction(m + 1, 2))
+        specs.append(s)
+    jobs = []
+    for s in specs:
+        try:
+            X, g, lb, ub = c16.delay_rows_impl(s, r2)
+        except Exception as e:  # noqa: BLE001
+            ctx.count("delay_member_exception_" + type(e).__name__)
+            continue
+        jobs.append((s, X, g))
+    vals = core.eval_terms(ID + "dly", trcheck.IMPORTS + ["Delay"], [c16.model_term(s, X) for s, X, _ in jobs], shard=12) if jobs else []
+    for (s, X, g), v in zip(jobs, vals):
+        it = iter(v)
+        k = next(it)
+        rows = [Fraction(next(it), next(it)) for _ in range(k)]
+        ctx.count("delay_member_cases")
+        ctx.case_done(core.fingerprint(["delay-members", s["ensemble_size"], len(s["times"]), len(s["delayed_feedback"])]), True)
+        bad = [(i, a, float(b)) for i, (a, b) in enumerate(zip(g, rows)) if not tr.close(a, b, 1e-8)] if len(rows) == len(g) else [("row-count", len(g), len(rows))]
+        if bad:
+            ctx.violation("isolation/delay-rows", {"spec": s, "X": [str(x) for x in X], "differences": bad[:5]},
+                          what="delayed feedback rows of an ensemble with member-dependent delays differ from the members' own delays: %s" % (bad[0],))
+
+
+_run_core_d = run
+
+
+def run(ctx):  # noqa: F811
+    _run_core_d(ctx)
+    if not trcheck.replay_spec():
+        delay_member_rows(ctx)
